@@ -230,7 +230,7 @@ package server
 //@   ensures case invalidates: old(nsPresent(m.namespaces[genIdx(m)], name)) ==> !prepared(m)
 
 // ---------------------------------------------------------------- C35 client address allow-list
-//@ property C35: (*Namespace).IsClientIPAllowed, parseAllowIps
+//@ property C35: (*Namespace).IsClientIPAllowed, parseAllowIps, (*Session).IsAllowConnect
 
 // a client may connect iff the allow-list is empty or some entry matches its address
 //@ func (*Namespace).IsClientIPAllowed
@@ -238,6 +238,36 @@ package server
 //@   assigns \nothing
 //@   loop 0 invariant forall(j, 0, rangeindex + 1, !entryMatches(n.allowips[j], clientIP))
 //@   ensures ret0 <==> (len(n.allowips) == 0 || exists(j, 0, len(n.allowips), entryMatches(n.allowips[j], clientIP)))
+
+// the connection gate: a client is let in only if its namespace exists and the allow-list admits the address its connection
+// comes from (address text -> host -> IP through the trusted net functions, named by uninterpreted functions)
+//@ pure peerHost(a string) string
+//@ pure hostIP(h string) net.IP
+//@ pure remoteOf(c *mysql.Conn) interface{}
+//@ pure addrText(a interface{}) string
+//@ trusted net.SplitHostPort
+//@   params hostport
+//@   pure-call
+//@   ensures ret0 == peerHost(hostport)
+//@ trusted net.ParseIP
+//@   params s
+//@   pure-call
+//@   ensures ret0 == hostIP(s)
+//@ trusted (*github.com/XiaoMi/Gaea/mysql.Conn).RemoteAddr
+//@   params recv
+//@   pure-call
+//@   ensures ret0 == remoteOf(recv)
+//@ trusted (net.Addr).String
+//@   params recv
+//@   pure-call
+//@   ensures ret0 == addrText(recv)
+//@ pure peerIP(cc *Session) net.IP = hostIP(peerHost(addrText(remoteOf(cc.c.Conn))))
+//@ func (*Session).IsAllowConnect
+//@   requires cc != nil && cc.c != nil
+//@   assigns \nothing
+//@   ensures case noNamespace: curNs(cc) == nil ==> !ret0
+//@   ensures case admitted: curNs(cc) != nil && ret0 ==> len(curNs(cc).allowips) == 0 || exists(j, 0, len(curNs(cc).allowips), entryMatches(curNs(cc).allowips[j], peerIP(cc)))
+//@   ensures case refused:  curNs(cc) != nil && !ret0 ==> len(curNs(cc).allowips) != 0 && forall(j, 0, len(curNs(cc).allowips), !entryMatches(curNs(cc).allowips[j], peerIP(cc)))
 
 // every non-blank configured entry is parsed into the list (and nothing else is), or the whole list is rejected
 //@ pure trimS(s string) string
